@@ -55,8 +55,11 @@ Definition enc_run (sees_retry : bool) (r : list yield * run_end * parser) : val
    included, when the first stream reset it with an empty id field. *)
 Definition is_second (i : val) : bool := ((as_n (nth_val 0 i) =? 4) || (as_n (nth_val 0 i) =? 6))%N.
 Definition first_body (i : val) : bytes := as_b (nth_val 6 i).
-Definition first_case (c : pcase) (first : bytes) : pcase :=
-  mkpc 1%N (match first with [] => [] | _ => [first] end) CleanEOF None (pc_buf c) [].
+(* entry 6: Buffer is called only after the first attempt, which therefore scans with the default configuration *)
+Definition buffer_set_later (i : val) : bool := (as_n (nth_val 0 i) =? 6)%N.
+Definition first_case (later : bool) (c : pcase) (first : bytes) : pcase :=
+  mkpc 1%N (match first with [] => [] | _ => [first] end) CleanEOF None
+       (if later then mkbc false 0 0 else pc_buf c) [].
 Definition with_id0 (c : pcase) (id : bytes) : pcase :=
   mkpc (pc_entry c) (pc_chunks c) (pc_ending c) (pc_stop c) (pc_buf c) id.
 (* the ID of the last event among these yields (none: the connection starts with the empty ID) *)
@@ -66,7 +69,7 @@ Definition last_id (ys : list yield) : bytes :=
 (* the model: the first attempt runs on the model stack too *)
 Definition model_case (i : val) : pcase :=
   let c := dec_case i in
-  if is_second i then with_id0 c (last_id (fst (fst (run_case (first_case c (first_body i)))))) else c.
+  if is_second i then with_id0 c (last_id (fst (fst (run_case (first_case (buffer_set_later i) c (first_body i)))))) else c.
 
 Definition run_parse (i : val) : val :=
   let c := model_case i in enc_run (pc_sees_retry c) (run_case c).
@@ -152,8 +155,8 @@ Definition yields_eqb (a b : list yield) : bool := val_eqb (VL (map enc_yield a)
    the whole interpretation of [first], or the interpretation up to a group that does not fit followed by TooLong;
    the ID carried over is that of the last event among them.  When [first] fits the limit (the premise of C01 for
    the connection as a whole) there is exactly one candidate: the ID after the whole interpretation. *)
-Definition carried_ids (c : pcase) (first : bytes) : list bytes :=
-  let c1 := first_case c first in
+Definition carried_ids (later : bool) (c : pcase) (first : bytes) : list bytes :=
+  let c1 := first_case later c first in
   let L := limit_of c1 in
   (if may_complete L first then [last_id (spec_full c1)] else []) ++
   map (fun off => last_id (spec_toolong c1 off)) (toolong_points L (stream_needs first)).
@@ -162,7 +165,7 @@ Definition carried_ids (c : pcase) (first : bytes) : list bytes :=
    may have left *)
 Definition spec_cases (i : val) : list pcase :=
   let c := dec_case i in
-  if is_second i then map (with_id0 c) (carried_ids c (first_body i)) else [c].
+  if is_second i then map (with_id0 c) (carried_ids (buffer_set_later i) c (first_body i)) else [c].
 
 (* ---- decoding the observation -------------------------------------------------------------------- *)
 Definition dec_serr (v : val) : serr :=
